@@ -42,6 +42,8 @@ DEFS = [
     ("base_idx", "bad_indices (fun w => negb (c01_base_domain w)) {c} 0"),
     ("paths_bad", "bad_indices case_spec_ok_C01_paths {c} 0"),
     ("paths_idx", "bad_indices (fun w => negb (c01_paths_domain w)) {c} 0"),
+    ("multi_bad", "bad_indices case_spec_ok_C01_multi {c} 0"),
+    ("multi_idx", "bad_indices (fun w => negb (c01_multi_domain w)) {c} 0"),
 ]
 
 
@@ -70,10 +72,11 @@ def run(ctx):
         return
     ctx.log("harness ran %d cases" % len(cases))
     res, nshards = wc.shard_eval(ctx, "C01", vfile, DEFS)
-    corr_bad, spec_bad = res["corr_bad"], res["spec_bad"] + res["paths_bad"]
+    corr_bad, spec_bad = res["corr_bad"], sorted(set(res["spec_bad"] + res["paths_bad"] + res["multi_bad"]))
     in_dom, in_base, in_paths = set(res["dom_idx"]), set(res["base_idx"]), set(res["paths_idx"])
-    ctx.log("corr_bad=%d spec_bad=%d in_D=%d in_base=%d paths_dom=%d shards=%d" %
-            (len(corr_bad), len(spec_bad), len(in_dom), len(in_base), len(in_paths), nshards))
+    in_multi = set(res["multi_idx"])
+    ctx.log("corr_bad=%d spec_bad=%d in_D=%d in_base=%d paths_dom=%d multi_dom=%d shards=%d" %
+            (len(corr_bad), len(spec_bad), len(in_dom), len(in_base), len(in_paths), len(in_multi), nshards))
 
     # known findings: replay each witness on the implementation
     stale = []
@@ -120,9 +123,12 @@ def run(ctx):
             "extractors": wc.histogram(len(c["exts"]) for c in cases),
             "whole_tree_statement_domain": len(in_base), "inside_D": len(in_dom),
             "rejected_by_D": len(refuted_outside_D), "requested_path_oracle_domain": len(in_paths),
+            "multi_root_oracle_domain": len(in_multi),
+            "stat_consulting_extractors": sum(1 for c in cases if c.get("stat_req")),
+            "symlinks_over_limit": sum(1 for c in cases if c.get("symlinks") and c.get("max_size")),
         },
         "vm_compute_cases": len(cases),
-        "oracle_claims_checked": len(in_dom) + len(in_paths),
+        "oracle_claims_checked": len(in_dom) + len(in_paths) + len(in_multi),
         "explanation": "correspondence (model = implementation: visit/FileRequired/Extract trace, inventory, statuses, error class, "
                        "Scan result) on every case; the declarative spec is evaluated on the implementation's observed calls for "
                        "every case inside D (whole-tree) and for every requested-path case inside its domain",
@@ -143,9 +149,11 @@ def replay(ctx, path):
     print("implementation:", json.dumps(impl))
     if coq_case:
         rc, out = wc.eval_single(ctx, "C01_replay", coq_case, [
-            ("model", "model_obs (cfg_of_case w) (w_roots w)"),
+            ("model", "model_obs_d (cfg_of_case w) (w_dets w) (w_roots w)"),
             ("model_eq_impl", "case_model_ok w"),
             ("spec_expected_calls", "match w_roots w with [t] => expected_calls (cfg_of_case w) t | _ => [] end"),
-            ("in_D", "c01_domain w"), ("spec_ok", "case_spec_ok_C01 w"), ("paths_spec_ok", "case_spec_ok_C01_paths w")])
+            ("in_D", "c01_domain w"), ("spec_ok", "case_spec_ok_C01 w"), ("paths_spec_ok", "case_spec_ok_C01_paths w"),
+            ("multi_root_spec_ok", "case_spec_ok_C01_multi w"),
+            ("multi_root_expected_calls", "flat_map (expected_calls (cfg_of_case w)) (w_roots w)")])
         print(out)
     return 0
